@@ -102,4 +102,4 @@ def int_specs(u):
     from vx.gen import VERIF
     with open(os.path.join(VERIF, 'trusted/int_specs.rs')) as f:
         txt = f.read()
-    u.trusted_text(txt, 'assume_specification isize::abs (requires != MIN), isize::unsigned_abs (trusted/int_specs.rs)')
+    u.trusted_text(txt, 'assume_specification isize::abs (requires != MIN), isize::unsigned_abs, isize::abs_diff (trusted/int_specs.rs)')
